@@ -290,6 +290,21 @@ func (w *worker) runPath(l *LemmaRun, entry *ssa.Function, prefix []Decision) {
 		}
 	}
 	in.sol.PopTo(0)
+	if strings.Contains(in.sol.lastErr, "canceled") {
+		// The solver printed an (error …) during this path - typically z3 4.8.12's "push canceled" right after a query
+		// timeout: the (push 1) was dropped, so the solver's assertion stack no longer matches ours and every later
+		// path of this worker would be judged against stale assertions ("replayed decision prefix is infeasible" in
+		// all following lemmas). The path is inconclusive; continue with a fresh solver (counters carried over).
+		old := in.sol
+		old.Close()
+		in.sol = NewSolver(old.kind, 20000)
+		in.sol.record = old.record
+		in.sol.Queries, in.sol.Sat, in.sol.Unsat, in.sol.Unknown = old.Queries, old.Sat, old.Unsat, old.Unknown
+		in.sol.Errors, in.sol.Dur = old.Errors, old.Dur
+		if status == "ok" {
+			status, why = "aborted", "solver error during the path: "+old.lastErr
+		}
+	}
 	in.rollback()
 	l.mu.Lock()
 	l.Paths++
